@@ -8,5 +8,7 @@ mkdir -p .build .work replays evidence
 cd harness
 go vet -tags verif ./... 
 go test -c -tags verif -o ../.build/props.test ./props/
+# (the race binary proper is built by ./check with the autoyield overlay; this warms the build cache)
+go build -o ../.build/autoyield ./cmd/autoyield
 go test -c -race -tags verif -o ../.build/props.race.test ./props/
 echo "setup ok: $(go version)"
